@@ -20,6 +20,8 @@ PairSyms == {"global_d", "hidden_d", "global_f", "imp_d", "imp_f", "ifunc", "tls
 PairRefs == {"abs64", "pc32", "abs32s", "plt32", "gotpcrel", "rex_gotpcrelx", "gotpcrelx_call", "gotoff64",
              "tpoff32", "gottpoff_mov", "tlsgd", "tlsld", "tlsdesc"}
 
+RelaxOld == "old"        \* mc/Reloc_oldrelax.cfg: RelaxVariant <- RelaxOld
+
 VARIABLES c, r2, pc, eff, proc, wr, verdict
 vars == <<c, r2, pc, eff, proc, wr, verdict>>
 
